@@ -75,8 +75,18 @@ NRAYS = 4
 
 
 # ------------------------------------------------------------------------------------------------ strategies
+def _snap(v):
+    # |v| < 1e-6 -> 0: raysect's Cylinder.hit misses the cylinder when the square of a direction component underflows
+    # (e.g. Vector3D(0, 1e-200, 1)); such values carry no geometric meaning and are not what C10 is about
+    return 0.0 if abs(v) < 1e-6 else v
+
+
+def _fl(lo, hi):
+    return st.floats(lo, hi).map(_snap)
+
+
 def _size(draw):
-    return draw(st.sampled_from(SIZES)) if draw(st.booleans()) else draw(st.floats(0.05, 2.0))
+    return draw(st.sampled_from(SIZES)) if draw(st.booleans()) else draw(_fl(0.05, 2.0))
 
 
 def _voxels(draw, ncell):
@@ -100,12 +110,12 @@ def _voxels(draw, ncell):
 def _placement(draw):
     if draw(st.integers(0, 4)) == 0:
         return {"t": [0.0, 0.0, 0.0], "r": [0.0, 0.0, 0.0]}
-    return {"t": [draw(st.floats(-5.0, 5.0)) for _ in range(3)],
-            "r": [draw(st.sampled_from(ANGLES)) if draw(st.booleans()) else draw(st.floats(-180.0, 180.0)) for _ in range(3)]}
+    return {"t": [draw(_fl(-5.0, 5.0)) for _ in range(3)],
+            "r": [draw(st.sampled_from(ANGLES)) if draw(st.booleans()) else draw(_fl(-180.0, 180.0)) for _ in range(3)]}
 
 
 def _lat(draw, n, integer):
-    return draw(st.integers(0, n)) if integer else draw(st.floats(0.0, float(n)))
+    return draw(st.integers(0, n)) if integer else draw(_fl(0.0, float(n)))
 
 
 def _back(draw, inside=False):
@@ -119,8 +129,8 @@ def _box_ray(draw, n):
     cls = draw(st.sampled_from(["two", "axis", "edge", "edge", "plane", "inside"]))
     off = lambda: draw(st.sampled_from(OFFS))       # noqa: E731
     if cls == "two":
-        a = {"lat": [draw(st.floats(0.0, float(n[k]))) for k in range(3)], "off": [0.0] * 3}
-        b = {"lat": [draw(st.floats(-0.4 * n[k], 1.4 * n[k])) for k in range(3)], "off": [0.0] * 3}
+        a = {"lat": [draw(_fl(0.0, float(n[k]))) for k in range(3)], "off": [0.0] * 3}
+        b = {"lat": [draw(_fl(-0.4 * n[k], 1.4 * n[k])) for k in range(3)], "off": [0.0] * 3}
         return {"cls": cls, "a": a, "b": b, "back": _back(draw)}
     if cls == "axis":
         ax = draw(st.integers(0, 2))
@@ -136,20 +146,20 @@ def _box_ray(draw, n):
             free2 = draw(st.integers(0, 3))
             b = {"lat": [_lat(draw, n[k], k != free2) for k in range(3)], "off": [off() if k != free2 else 0.0 for k in range(3)]}
         else:
-            b = {"lat": [draw(st.floats(-0.4 * n[k], 1.4 * n[k])) for k in range(3)], "off": [0.0] * 3}
+            b = {"lat": [draw(_fl(-0.4 * n[k], 1.4 * n[k])) for k in range(3)], "off": [0.0] * 3}
         return {"cls": cls, "a": a, "b": b, "back": _back(draw)}
     if cls == "plane":
         ax = draw(st.integers(0, 2))
         a = {"lat": [_lat(draw, n[k], k == ax) for k in range(3)], "off": [off() if k == ax else 0.0 for k in range(3)]}
-        rel = [draw(st.floats(-1.0, 1.0)) for _ in range(3)]
+        rel = [draw(_fl(-1.0, 1.0)) for _ in range(3)]
         rel[ax] = 0.0
         if draw(st.booleans()):
             rel[(ax + 1) % 3] = 1.0
         return {"cls": cls, "a": a, "b": {"rel": rel}, "back": _back(draw)}
     ints = [draw(st.integers(0, 3)) == 0 for _ in range(3)]
-    a = {"lat": [(draw(st.integers(1, n[k] - 1)) if (ints[k] and n[k] > 1) else draw(st.floats(0.02, n[k] - 0.02))) for k in range(3)],
+    a = {"lat": [(draw(st.integers(1, n[k] - 1)) if (ints[k] and n[k] > 1) else draw(_fl(0.02, n[k] - 0.02))) for k in range(3)],
          "off": [off() if (ints[k] and n[k] > 1) else 0.0 for k in range(3)]}
-    b = {"rel": [draw(st.floats(-1.0, 1.0)) if draw(st.integers(0, 3)) else 0.0 for _ in range(3)]}
+    b = {"rel": [draw(_fl(-1.0, 1.0)) if draw(st.integers(0, 3)) else 0.0 for _ in range(3)]}
     return {"cls": cls, "a": a, "b": b, "back": 0.0}
 
 
@@ -159,7 +169,7 @@ def box_case(draw):
     d = [_size(draw) for _ in range(3)]
     return {"kind": "box", "n": n, "d": d, "step": draw(st.sampled_from(STEPS)), "vox": _voxels(draw, n[0] * n[1] * n[2]),
             "via": draw(st.sampled_from(["ctor", "setter"])), "place": _placement(draw),
-            "wl": [draw(st.floats(100.0, 900.0)), draw(st.floats(0.01, 300.0))],
+            "wl": [draw(_fl(100.0, 900.0)), draw(_fl(0.01, 300.0))],
             "rays": [draw(_box_ray(n)) for _ in range(NRAYS)]}
 
 
@@ -172,13 +182,13 @@ def _cyl_ray(draw, n, nsurf):
     dang = 360.0 / nang                             # phi lattice unit in degrees is dphi when nsurf > 0, else 360
 
     def cylpoint(ir, ip, iz, rl_range=None):
-        rl = draw(st.integers(0, nr)) if ir else draw(st.floats(0.0, float(nr)))
-        pl = draw(st.integers(0, nang - 1)) if ip else draw(st.floats(0.0, float(nang)))
-        zl = draw(st.integers(0, nz)) if iz else draw(st.floats(0.0, float(nz)))
+        rl = draw(st.integers(0, nr)) if ir else draw(_fl(0.0, float(nr)))
+        pl = draw(st.integers(0, nang - 1)) if ip else draw(_fl(0.0, float(nang)))
+        zl = draw(st.integers(0, nz)) if iz else draw(_fl(0.0, float(nz)))
         return {"cyl": [rl, pl, zl], "off": [off() if ir else 0.0, off() if ip else 0.0, off() if iz else 0.0]}
 
     def xyz(lo, hi, zlo, zhi):
-        return {"xyz": [draw(st.floats(lo, hi)), draw(st.floats(lo, hi)), draw(st.floats(zlo, zhi))]}
+        return {"xyz": [draw(_fl(lo, hi)), draw(_fl(lo, hi)), draw(_fl(zlo, zhi))]}
 
     if cls == "two":
         return {"cls": cls, "a": xyz(-1.0, 1.0, 0.0, 1.0), "b": xyz(-1.4, 1.4, -0.4, 1.4), "back": _back(draw)}
@@ -193,7 +203,7 @@ def _cyl_ray(draw, n, nsurf):
         return {"cls": cls, "a": a, "b": {"rel": rel}, "back": _back(draw)}
     if cls == "tangent":
         a = cylpoint(True, draw(st.booleans()), draw(st.booleans()))
-        c = draw(st.sampled_from([0.0, 0.0, 1.0])) * draw(st.floats(-1.5, 1.5))
+        c = draw(st.sampled_from([0.0, 0.0, 1.0])) * draw(_fl(-1.5, 1.5))
         return {"cls": cls, "a": a, "b": {"rel": [0.0, draw(st.sampled_from([1.0, -1.0])), c]}, "back": _back(draw)}
     if cls == "edge":
         free = draw(st.integers(0, 3))
@@ -206,21 +216,21 @@ def _cyl_ray(draw, n, nsurf):
         return {"cls": cls, "a": a, "b": b, "back": _back(draw)}
     if cls == "halfplane":
         a = cylpoint(draw(st.booleans()), True, draw(st.booleans()))
-        rel = [draw(st.sampled_from([1.0, -1.0, 0.3])), 0.0, draw(st.sampled_from([0.0, 1.0])) * draw(st.floats(-1.5, 1.5))]
+        rel = [draw(st.sampled_from([1.0, -1.0, 0.3])), 0.0, draw(st.sampled_from([0.0, 1.0])) * draw(_fl(-1.5, 1.5))]
         return {"cls": cls, "a": a, "b": {"rel": rel}, "back": _back(draw)}
     if cls == "throughaxis":
-        a = {"xyz": [0.0, 0.0, draw(st.floats(0.0, 1.0))]}
+        a = {"xyz": [0.0, 0.0, draw(_fl(0.0, 1.0))]}
         if draw(st.booleans()):
             b = cylpoint(draw(st.booleans()), draw(st.booleans()), draw(st.booleans()))
         else:
             b = xyz(-1.4, 1.4, -0.4, 1.4)
         return {"cls": cls, "a": a, "b": b, "back": _back(draw)}
     ints = [draw(st.integers(0, 3)) == 0 for _ in range(3)]
-    a = {"cyl": [(draw(st.integers(1, nr - 1)) if (ints[0] and nr > 1) else draw(st.floats(0.02, nr - 0.02))),
-                 (draw(st.integers(0, nang - 1)) if ints[1] else draw(st.floats(0.0, float(nang)))),
-                 (draw(st.integers(1, nz - 1)) if (ints[2] and nz > 1) else draw(st.floats(0.02, nz - 0.02)))],
+    a = {"cyl": [(draw(st.integers(1, nr - 1)) if (ints[0] and nr > 1) else draw(_fl(0.02, nr - 0.02))),
+                 (draw(st.integers(0, nang - 1)) if ints[1] else draw(_fl(0.0, float(nang)))),
+                 (draw(st.integers(1, nz - 1)) if (ints[2] and nz > 1) else draw(_fl(0.02, nz - 0.02)))],
          "off": [off() if (ints[0] and nr > 1) else 0.0, off() if ints[1] else 0.0, off() if (ints[2] and nz > 1) else 0.0]}
-    b = {"rel": [draw(st.floats(-1.0, 1.0)) if draw(st.integers(0, 3)) else 0.0 for _ in range(3)]}
+    b = {"rel": [draw(_fl(-1.0, 1.0)) if draw(st.integers(0, 3)) else 0.0 for _ in range(3)]}
     return {"cls": cls, "a": a, "b": b, "back": 0.0}
 
 
@@ -230,12 +240,12 @@ def cyl_case(draw):
     nphi = draw(st.sampled_from([1, 1, 2, 3, 4, 5, 6, 7, 8]))
     period = draw(st.sampled_from(PERIODS)) if nphi > 1 else draw(st.sampled_from([360.0, 360.0, 360.0, 90.0]))
     dr, dz = _size(draw), _size(draw)
-    rmin = draw(st.sampled_from([0.0, 0.0, 0.0, 0.05, 0.5, 3.0])) if draw(st.integers(0, 2)) else draw(st.floats(0.05, 3.0))
+    rmin = draw(st.sampled_from([0.0, 0.0, 0.0, 0.05, 0.5, 3.0])) if draw(st.integers(0, 2)) else draw(_fl(0.05, 3.0))
     nsurf = nphi * int(round(360.0 / period)) if nphi > 1 else 0
     return {"kind": "cyl", "n": [nr, nphi, nz], "dr": dr, "dz": dz, "rmin": rmin, "period": period,
             "step": draw(st.sampled_from(STEPS)), "vox": _voxels(draw, nr * nphi * nz),
             "via": draw(st.sampled_from(["ctor", "setter"])), "place": _placement(draw),
-            "wl": [draw(st.floats(100.0, 900.0)), draw(st.floats(0.01, 300.0))],
+            "wl": [draw(_fl(100.0, 900.0)), draw(_fl(0.01, 300.0))],
             "krot": draw(st.integers(1, 7)),
             "rays": [draw(_cyl_ray([nr, nphi, nz], nsurf)) for _ in range(NRAYS)]}
 
@@ -387,6 +397,8 @@ def _check_bounds(ctx, e, B, what, lab):
             s = int(np.nonzero(bad)[0][0])
             ctx.fail(what + "scheme-midpoint", "source %d: entry %r, but the documented midpoint samples give between %r and %r (dt <= %r)"
                      % (s, float(e[s]), float(B.sch_lo[s]), float(B.sch_hi[s]), B.dt_all))
+        if lab is not None and B.length > 0:
+            ctx.label("scheme-checked")
     elif lab is not None and B.scheme_skip:
         ctx.label("scheme-skipped:" + B.scheme_skip)
     if lab is not None:
@@ -472,6 +484,6 @@ def run(case, ctx):
 
 SHARDS = {"quick": 8, "thorough": 16}
 SUBCHECKS = {
-    "box": Given(box_case, run, quick=480, thorough=16000),
-    "cyl": Given(cyl_case, run, quick=720, thorough=24000),
+    "box": Given(box_case, run, quick=480, thorough=30000),
+    "cyl": Given(cyl_case, run, quick=720, thorough=45000),
 }
